@@ -17,7 +17,9 @@ from .serialization import (
     cell_to_parent,
     get_stride,
     is_first_child,
-    FIRST_HILBERT_RESOLUTION
+    FIRST_HILBERT_RESOLUTION,
+    HILBERT_START_BIT,
+    REMOVAL_MASK
 )
 from .cell_info import get_num_children
 
@@ -66,6 +68,18 @@ def uncompact(cells: List[int], target_resolution: int) -> List[int]:
     return result
 
 
+def _hierarchy_key(cell: int) -> int:
+    """
+    Sort key under which every cell sorts directly before its own descendants.
+
+    A resolution 0 id stores the origin in its top 6 bits while all finer ids store 5 * origin + segment,
+    so in plain numeric order a resolution 0 cell lands in the middle of another origin's cells.
+    """
+    if get_resolution(cell) == 0:
+        return (((cell >> HILBERT_START_BIT) * 5) << HILBERT_START_BIT) | (cell & REMOVAL_MASK)
+    return cell
+
+
 def compact(cells: List[int]) -> List[int]:
     """
     Compacts a set of A5 cells by replacing complete groups of sibling cells with their parent cells.
@@ -79,8 +93,8 @@ def compact(cells: List[int]) -> List[int]:
     if len(cells) == 0:
         return []
 
-    # Single sort and dedup
-    current_cells = sorted(set(cells))
+    # Single sort and dedup, in hierarchical order so that sibling groups are contiguous
+    current_cells = sorted(set(cells), key=_hierarchy_key)
 
     # Compact until no more changes
     # No re-sorting needed - parents maintain sorted order!
